@@ -109,8 +109,19 @@ def translate_mystery(source):
         raise Refused('guards %r (expected exactly %r)' % (guards, want))
     # M = np.zeros(len(A), bool)
     st = body[0]
-    if not (isinstance(st, ast.Assign) and len(st.targets) == 1 and _name(st.targets[0])
-            and ast.unparse(st.value) in ('np.zeros(len(%s), bool)' % a_jump, 'np.zeros(len(%s), bool)' % a_rain)):
+    def is_bool_zeros(v):
+        # np.zeros(len(A) | (len(A),) | A.shape, bool | dtype=bool | 'bool' | np.bool_)
+        if not (isinstance(v, ast.Call) and ast.unparse(v.func) in ('np.zeros', 'numpy.zeros')):
+            return False
+        pos, kw = list(v.args), {k.arg: k.value for k in v.keywords}
+        if not pos or set(kw) - {'dtype'} or len(pos) > 2 or (len(pos) == 2 and 'dtype' in kw):
+            return False
+        shape = ast.unparse(pos[0]).replace(' ', '')
+        ok_shape = any(shape in ('len(%s)' % a, '(len(%s),)' % a, '%s.shape' % a, 'len(%s),' % a) for a in (a_jump, a_rain))
+        dt = pos[1] if len(pos) == 2 else kw.get('dtype')
+        ok_dt = dt is not None and ast.unparse(dt) in ('bool', "'bool'", 'np.bool_', 'numpy.bool_')
+        return ok_shape and ok_dt
+    if not (isinstance(st, ast.Assign) and len(st.targets) == 1 and _name(st.targets[0]) and is_bool_zeros(st.value)):
         raise Refused('mask initialisation %s' % ast.unparse(st))
     mask = _name(st.targets[0])
     st = body[1]
